@@ -16,7 +16,7 @@ def setup():
         return 2
     rc = 0
     for m in sorted(glob.glob(os.path.join(SPEC, "*.tla"))):
-        p = subprocess.run(["java", "-cp", TLA_CP, "tla2sany.SANY", os.path.basename(m)], cwd=SPEC,
+        p = subprocess.run(["java", "-cp", TLA_CP, "tla2sany.SANY", os.path.basename(m)], cwd=SPEC, stdin=subprocess.DEVNULL,
                            capture_output=True, text=True)
         ok = p.returncode == 0 and "*** Errors" not in p.stdout and "Fatal errors" not in p.stdout
         log(f"[sany] {os.path.basename(m)}: {'ok' if ok else 'FAILED'}")
